@@ -620,7 +620,8 @@ class HAPServerHandler:
         if client_uuid not in self.state.uuid_to_bytes:
             # We are missing the raw bytes for this client, so we need to
             # add them to the state and persist so list pairings works.
-            self.state.uuid_to_bytes[client_uuid] = client_username
+            with self.state.lock:
+                self.state.uuid_to_bytes[client_uuid] = client_username
             self.accessory_handler.async_persist()
 
         assert self.response is not None  # nosec
